@@ -59,7 +59,7 @@ def vec(prefix, n):
 
 
 def trace_solver(name, clspath, pvars=('r',), tvar='t', mode='new', concrete=None, structured=None,
-                 extra_modules=(), extra_shims=None, tsym=None, attrs=None, post=None):
+                 extra_modules=(), extra_shims=None, tsym=None, attrs=None, post=None, derived=None):
     """trace `solver(points, t)` for one symbolic point.
     mode 'new': bypass __init__ (constructor only validates);
     mode 'init': run the real constructor on the symbolic parameters first."""
@@ -91,7 +91,7 @@ def trace_solver(name, clspath, pvars=('r',), tvar='t', mode='new', concrete=Non
         warnings.simplefilter('ignore')
         with Patched(mods, extra=shims, recorder=Rec):
             leaves = explore(run)
-    return Model(name, leaves, list(pvars), tvar, source=clspath)
+    return Model(name, leaves, list(pvars), tvar, source=clspath, derived=derived)
 
 
 def trace_init(name, clspath, concrete=None, structured=None, extra_modules=(), derived=(), extra_shims=None):
